@@ -1,6 +1,7 @@
 import S3V.Thm.XmlMeaning
 import S3V.Spec.Xml
 import S3V.Gen.XmlDe
+import S3V.Props.C13
 /-!
 # C13 — kernel-checked witnesses of the open findings (outside the pass/fail gate)
 
@@ -99,5 +100,13 @@ theorem illformed_accepted :
 /-- … although not well-formed -/
 theorem illformed_is_illformed :
     (match XmlSpec.parse docAttr with | .error (.illFormed _) => true | _ => false) = true := by decide
+
+/-- the full statement `C13_decode_meaning_full` is false of the model (hence, by the correspondence run on the
+witness line `w-cdata`, of the code) -/
+theorem decode_meaning_full_false (X : Ext) : ¬ S3V.C13.C13_decode_meaning_full X := by
+  intro h
+  have h1 := h [.cdata [97, 98, 99]] key [] [97, 98, 99] (by decide)
+  rw [(meaning_counterexample_cdata X).2] at h1
+  simp [deEvents] at h1
 
 end S3V.C13.Findings
